@@ -913,6 +913,7 @@ func eqnil(t types.Type, x, y value) bool {
 
 func (i *interpreter) unop(instr *ssa.UnOp, x value) value {
 	if instr.Op == token.ARROW {
+		i.chanOpInThread(instr)
 		v, ok := i.chanRecv(x.(chan value))
 		if !ok {
 			v = zero(instr.X.Type().Underlying().(*types.Chan).Elem())
